@@ -118,6 +118,10 @@ def time_grid(desc):
         return t * (t_end / t[-1])
     if kind == "big50":
         return 50.0 * np.arange(21)
+    if kind == "tinysteps":
+        # sqrt-spaced grid with a short end time: consecutive increments differ by 2e-3/600^2 = 5.6e-9 (a lagged or
+        # cached time increment is invisible to "close enough" comparisons but not to the step residual)
+        return np.linspace(0.0, np.sqrt(1e-3), 601) ** 2
     raise KeyError(kind)
 
 
